@@ -89,8 +89,11 @@ PROPS = {
     },
     "C01": {
         "modules": ["SamlModel.Props.C01", "SamlModel.Props.Stateless"],
-        "translated": ["getResponseCert", "Attributes_GetSAML", "Attributes_GetNameID"],
-        "trusted_base": COMMON_TRUST + CB_TRUST,
+        "translated": ["getResponseCert", "Attributes_GetSAML", "Attributes_GetNameID", "IdentityProvider_loginResponse", "createSignature",
+                       "Response_makeSuccessfulResponse", "Response_makeFailedResponse"],
+        "trusted_base": COMMON_TRUST + CB_TRUST + [
+            "loginResponse and createSignature are translated (go2lean: Done(), SetUserinfoWithUserID with its filled argument, the key getter, time.Now / Format, NewID, createRedirectSignature / createPostSignature as typed oracles; the *Response parameter as an in-out value) and linked to the callback model by C01_generated_gate / C01_generated_failure / C01_generated_success (Props.CallbackGen): whatever the generated code returns, the model fed from the same oracle answers replies with exactly that status / that message; hand-modelled and fingerprinted remain the prologue of callbackHandleFunc and its two sendBackResponse calls",
+        ],
         "assumptions": ["Done() is owned by storage: the history theorem models completion as the only operation that sets it"],
     },
     "C03": {
